@@ -80,6 +80,22 @@ def _cached(key, make):
 
 
 # ------------------------------------------------------------------------------------------- implementation
+def _quiet(fn):
+    """runs `fn` with numpy's floating point errors and python warnings silenced, restoring both afterwards"""
+    import functools
+
+    @functools.wraps(fn)
+    def wrapped(*a, **kw):
+        import numpy as np
+
+        with warnings.catch_warnings(), np.errstate(all="ignore"):
+            warnings.simplefilter("ignore")
+            return fn(*a, **kw)
+
+    return wrapped
+
+
+@_quiet
 def impl_call(name: str, r: List[Fr], s: List[str], light: bool = False) -> str:
     """Runs the real classy_blocks; returns "accepted" or the class name of the exception.
     `light`: only the primary entry point of a guard (used for the generated probe table, which must be cheap)."""
@@ -97,8 +113,6 @@ def impl_call(name: str, r: List[Fr], s: List[str], light: bool = False) -> str:
     from classy_blocks.items.vertex import Vertex
     from classy_blocks.util.frame import Frame
 
-    warnings.simplefilter("ignore")
-    np.seterr(all="ignore")
     i = [int(x) if fr(x).denominator == 1 else None for x in r]
     f = [fl(x) for x in r]
     box = lambda: cb.Box([0, 0, 0], [1, 1, 1])
@@ -241,6 +255,7 @@ def impl_call(name: str, r: List[Fr], s: List[str], light: bool = False) -> str:
     raise ValueError("unknown call " + name)
 
 
+@_quiet
 def impl_grid(points: List[List[Fr]], quads: List[List[int]], ops: List[list]) -> List[str]:
     import numpy as np
 
@@ -259,6 +274,7 @@ def impl_grid(points: List[List[Fr]], quads: List[List[int]], ops: List[list]) -
     return out
 
 
+@_quiet
 def impl_mesh(ops: List[str]) -> List[str]:
     import classy_blocks as cb
 
@@ -275,6 +291,75 @@ def impl_mesh(ops: List[str]) -> List[str]:
         else:
             out.append(_outcome(getattr(mesh, op)))
     return out
+
+
+# slot k of an operation <-> the pair of block corners its edge joins (bottom i, top 4+i, side 8+i)
+SLOT_PAIR = [(i, (i + 1) % 4) for i in range(4)] + [(4 + i, 4 + (i + 1) % 4) for i in range(4)] + [(i, i + 4) for i in range(4)]
+
+
+@_quiet
+def impl_proj(ops: List[list]) -> dict:
+    """A history of projection calls on one Box.  After every call: outcome and the labels on the 12 block edges,
+    read through `Operation.edges` (keyed by corner pair, not by storage slot)."""
+    import classy_blocks as cb
+
+    op = cb.Box([0, 0, 0], [1, 1, 1])
+    lab = lambda ls: [f"l{k}" for k in ls]
+
+    def state():
+        fr_ = op.edges
+        return [sorted(int(x[1:]) for x in getattr(fr_[a][b], "label", [])) if fr_[a][b].kind == "project" else [] for a, b in SLOT_PAIR]
+
+    steps = []
+    for o in ops:
+        kind = o[0]
+        if kind == "pedge":
+            call_ = lambda: op.project_edge(o[1], o[2], lab(o[3]) if len(o[3]) != 1 else lab(o[3])[0])
+        elif kind == "addlabel":  # directly on the stored edge object when there is one
+            edge = op.edges[o[1]][o[2]]
+            if isinstance(edge, cb.Project):
+                call_ = lambda: edge.add_label(lab(o[3]))
+            else:
+                call_ = lambda: op.project_edge(o[1], o[2], lab(o[3]))
+        elif kind == "pside":
+            call_ = lambda: op.project_side(o[1], f"l{o[2]}", bool(o[3]), False)
+        elif kind == "fpedge":
+            face = op.top_face if o[1] else op.bottom_face
+            call_ = lambda: face.project_edge(o[2], lab(o[3]) if len(o[3]) != 1 else lab(o[3])[0])
+        else:
+            face = op.top_face if o[1] else op.bottom_face
+            call_ = lambda: face.project(f"l{o[2]}", bool(o[3]), False)
+        out = _outcome(call_)
+        steps.append([out, state()])
+    return {"steps": steps}
+
+
+# which block edges (corner pairs) a projection call touches, by blockMesh's convention alone
+def _bm_side_corners(side: str):
+    idx = {"bottom": (2, 0), "top": (2, 1), "left": (0, 0), "right": (0, 1), "front": (1, 0), "back": (1, 1)}[side]
+    return {c for c, xyz in BM_COORD.items() if xyz[idx[0]] == idx[1]}
+
+
+def proj_touched(o: list) -> Tuple[str, List[frozenset], List[int]]:
+    """(API, touched corner pairs, new labels)"""
+    kind = o[0]
+    if kind in ("pedge", "addlabel"):
+        api = "Operation.project_edge" if kind == "pedge" else "Project.add_label(stored edge)"
+        return api, [frozenset((o[1], o[2]))], list(o[3])
+    if kind == "fpedge":
+        base = 4 if o[1] else 0
+        return "Face.project_edge", [frozenset((base + o[2], base + (o[2] + 1) % 4))], list(o[3])
+    if kind == "pside":
+        side = o[1]
+        api = "Operation.project_side"
+    else:
+        side = "top" if o[1] else "bottom"
+        api = "Face.project"
+    if not o[3] or side not in BM_SIDES:
+        return api, [], [o[2]]
+    corners = _bm_side_corners(side)
+    pairs = [frozenset((a, b)) for a in corners for b in corners if a < b and _is_bm_edge(a, b)]
+    return api, pairs, [o[2]]
 
 
 # ------------------------------------------------------------------------------------------- the documented preconditions
@@ -716,6 +801,85 @@ def grid_cases(rng: random.Random, n: int) -> List[dict]:
     return out
 
 
+def proj_boundary_cases() -> List[dict]:
+    """Three or more surfaces on one edge through every path and every pair of paths (deterministic)."""
+    out = []
+    mk = lambda ops: {"kind": "proj", "ops": ops}
+    edges = [(a, b) for a in range(8) for b in range(8) if a < b and _is_bm_edge(a, b)]
+    for a, b in edges:
+        out.append(mk([["pedge", a, b, [0]], ["pedge", b, a, [1]], ["pedge", b, a, [0]], ["pedge", a, b, [2]], ["pedge", a, b, [1]]]))
+        out.append(mk([["pedge", a, b, [0, 1]], ["pedge", a, b, [2, 3]]]))
+        out.append(mk([["pedge", a, b, [0, 1]], ["addlabel", a, b, [1]], ["addlabel", a, b, [2]]]))
+        out.append(mk([["pedge", a, b, [0]], ["addlabel", a, b, [1]], ["pedge", a, b, [2]]]))
+    out.append(mk([["pedge", 0, 1, [0, 1, 2]], ["pedge", 0, 1, [0]]]))
+    for top in (0, 1):
+        for c in range(4):
+            a, b = 4 * top + c, 4 * top + (c + 1) % 4
+            out.append(mk([["fpedge", top, c, [0]], ["fpedge", top, c, [1]], ["fpedge", top, c, [2]]]))
+            out.append(mk([["fpedge", top, c, [0]], ["pedge", a, b, [1]], ["pedge", b, a, [2]]]))
+            out.append(mk([["pedge", a, b, [0, 1]], ["fpedge", top, c, [2]]]))
+            out.append(mk([["fproj", top, 0, 1], ["fpedge", top, c, [1]], ["pedge", a, b, [2]]]))
+            out.append(mk([["pedge", a, b, [0, 1]], ["fproj", top, 2, 1]]))
+            out.append(mk([["pedge", a, b, [0, 1]], ["fproj", top, 2, 0], ["fproj", top, 1, 1]]))
+    sides = list(BM_SIDES)
+    for s1 in sides:
+        for s2 in sides:
+            if s1 == s2:
+                continue
+            shared = _bm_side_corners(s1) & _bm_side_corners(s2)
+            ops = [["pside", s1, 0, 1], ["pside", s2, 1, 1]]
+            if len(shared) == 2:  # the two sides share an edge: it now carries two labels
+                a, b = sorted(shared)
+                out.append(mk(ops + [["pedge", a, b, [2]]]))
+                out.append(mk(ops + [["pedge", a, b, [1]], ["addlabel", a, b, [3]]]))
+            else:
+                out.append(mk(ops + [["pside", s1, 1, 1]]))
+        for a, b in edges:
+            if {a, b} <= _bm_side_corners(s1):
+                out.append(mk([["pedge", a, b, [0, 1]], ["pside", s1, 2, 1]]))
+                out.append(mk([["pedge", a, b, [0, 1]], ["pside", s1, 2, 0], ["pside", s1, 1, 1]]))
+                break
+    for s1, s2, s3 in (("front", "right", "top"), ("bottom", "front", "left"), ("back", "left", "top"), ("bottom", "right", "back")):
+        out.append(mk([["pside", s1, 0, 1], ["pside", s2, 1, 1], ["pside", s3, 2, 1]]))
+    out.append(mk([["pside", "middle", 0, 1], ["pside", "front", 0, 1]]))
+    return out
+
+
+def proj_cases(rng: random.Random, n: int) -> List[dict]:
+    """Random histories (2..9 calls) on one box, concentrated on a few edges so that label sets fill up."""
+    edges = [(a, b) for a in range(8) for b in range(8) if a != b and _is_bm_edge(a, b)]
+    out = []
+    for _ in range(n):
+        focus = rng.sample(edges, 2)
+        nlab = rng.choice([2, 3, 3, 4])
+        ops = []
+        for _ in range(rng.randint(2, 9)):
+            u = rng.random()
+            labels = rng.sample(range(nlab), 1 if rng.random() < 0.8 else min(2, nlab))
+            a, b = rng.choice(focus) if rng.random() < 0.75 else rng.choice(edges)
+            if u < 0.35:
+                ops.append(["pedge", a, b, labels])
+            elif u < 0.5:
+                ops.append(["addlabel", a, b, labels])
+            elif u < 0.7:
+                sides = [sd for sd in BM_SIDES if {a, b} <= _bm_side_corners(sd)] if rng.random() < 0.7 else list(BM_SIDES)
+                ops.append(["pside", rng.choice(sides), labels[0], int(rng.random() < 0.75)])
+            elif u < 0.85:
+                if (a < 4) == (b < 4):  # an edge of the bottom or of the top face
+                    top = int(a >= 4)
+                    lo, hi = sorted((a % 4, b % 4))
+                    corner = lo if hi - lo == 1 else 3
+                else:
+                    top, corner = rng.randrange(2), rng.randrange(4)
+                if rng.random() < 0.1:
+                    corner = rng.choice([-1, 4])
+                ops.append(["fpedge", top, corner, labels])
+            else:
+                ops.append(["fproj", rng.randrange(2), labels[0], int(rng.random() < 0.75)])
+        out.append({"kind": "proj", "ops": ops})
+    return out
+
+
 MESH_OPS = ["add", "assemble", "clear", "grade", "backport"]
 
 
@@ -763,7 +927,11 @@ class C20(core.Check):
         "rational frames, radii at/around equality and zero, lengths around zero), the random stream is seeded and "
         "mostly valid with random frames, origins, radii and near-boundary values (margin 1e-9 TOL from a threshold). "
         "grid cases: histories (2..8) of add_clamp/add_link on a strip of quads with positions on / TOL/2 from / 2 TOL "
-        "from / far from a vertex. mesh cases: histories (1..9) of add/assemble/clear/grade/backport. Non-trivial = "
+        "from / far from a vertex. mesh cases: histories (1..9) of add/assemble/clear/grade/backport. proj cases: histories "
+        "(2..9) of Operation.project_edge / Project.add_label on the stored edge / Operation.project_side / "
+        "Face.project_edge / Face.project on one box with 2..4 labels, concentrated on two edges, plus 168 deterministic "
+        "histories reaching a third surface through every path and pair of paths; observed: outcome and labels of all "
+        "12 edges after every call. Non-trivial = "
         "every case (each is a distinct argument tuple or history); distinct = different call, arguments or history."
     )
     assumptions = [
@@ -784,17 +952,26 @@ class C20(core.Check):
     # ------------------------------------------------------------------ generators
     def gen_cases(self, rng: random.Random, tier: str) -> List[dict]:
         if tier == "quick":
-            return boundary_cases() + random_cases(rng, 500) + grid_cases(rng, 80) + mesh_cases(rng, 40)
+            return (
+                boundary_cases()
+                + proj_boundary_cases()
+                + random_cases(rng, 500)
+                + grid_cases(rng, 80)
+                + mesh_cases(rng, 40)
+                + proj_cases(rng, 150)
+            )
         # thorough: wider index ranges (all pairs in -12..19), all frames, much longer random streams
         return (
             boundary_cases(pair_lo=-12, pair_hi=19)
             + random_cases(rng, 20000)
             + grid_cases(rng, 3000)
             + mesh_cases(rng, 800)
+            + proj_boundary_cases()
+            + proj_cases(rng, 4000)
         )
 
     def search_cases(self, rng: random.Random, tier: str) -> List[dict]:
-        return boundary_cases() + random_cases(rng, 400) + grid_cases(rng, 100) + mesh_cases(rng, 40)
+        return boundary_cases() + proj_boundary_cases() + random_cases(rng, 400) + grid_cases(rng, 100) + mesh_cases(rng, 40) + proj_cases(rng, 300)
 
     # ------------------------------------------------------------------ implementation
     def run_impl(self, case: dict) -> Any:
@@ -804,6 +981,8 @@ class C20(core.Check):
             pts = [[Fr(c) for c in p] for p in case["points"]]
             ops = [[op[0], *[[Fr(c) for c in v] for v in op[1:]]] for op in case["ops"]]
             return {"outs": impl_grid(pts, case["quads"], ops)}
+        if case["kind"] == "proj":
+            return impl_proj(case["ops"])
         return {"outs": impl_mesh(case["ops"])}
 
     # ------------------------------------------------------------------ model
@@ -816,6 +995,16 @@ class C20(core.Check):
             pts = ";".join(v(p) for p in case["points"])
             ops = ";".join(":".join([op[0], *[v(p) for p in op[1:]]]) for op in case["ops"])
             return [f"c20.grid {pts} {ops}"]
+        if case["kind"] == "proj":
+            enc = []
+            for o in case["ops"]:
+                if o[0] in ("pedge", "addlabel"):  # add_label on the stored object is the model's pedge
+                    enc.append(f"pedge:{o[1]}:{o[2]}:{_lean_list([str(x) for x in o[3]])}")
+                elif o[0] == "fpedge":
+                    enc.append(f"fpedge:{o[1]}:{o[2]}:{_lean_list([str(x) for x in o[3]])}")
+                else:
+                    enc.append(f"{o[0]}:{o[1]}:{o[2]}:{o[3]}")
+            return ["c20.proj " + ";".join(enc)]
         return ["c20.mesh " + ";".join(case["ops"])]
 
     @staticmethod
@@ -840,6 +1029,18 @@ class C20(core.Check):
             ok, _ = py_pre(case["name"], [Fr(x) for x in case["r"]], case["s"])
             if ok is not None and ok != (parts[1] == "pre"):
                 return f"{case['name']}{case['r']}{case['s']}: documented precondition: harness {ok}, model {parts[1]}"
+            return None
+        if case["kind"] == "proj":
+            steps = ans.split(";")
+            if len(steps) != len(impl["steps"]):
+                return f"{len(impl['steps'])} steps from the implementation, model answers {ans!r}"
+            for k, (m, (iout, istate)) in enumerate(zip(steps, impl["steps"])):
+                mout, _, mstate = m.partition("@")
+                if not self._match(mout, iout):
+                    return f"step {k} ({case['ops'][k]}): implementation {iout}, model {mout}"
+                mslots = [sorted(int(x) for x in sl.split(".") if x) for sl in mstate.split("|")]
+                if mslots != istate:
+                    return f"labels after step {k} ({case['ops'][k]}): implementation {istate}, model {mslots}"
             return None
         outs = ans.split(",")
         if len(outs) != len(impl["outs"]):
@@ -914,6 +1115,38 @@ class C20(core.Check):
                 if op[0] == "clamp" and got == "accepted":
                     clamped.add(hits[0])
             return out
+        if case["kind"] == "proj":
+            pair_slot = {frozenset(p): k for k, p in enumerate(SLOT_PAIR)}
+            pre = [[] for _ in range(12)]
+            for k, (o, (got, post)) in enumerate(zip(case["ops"], impl["steps"])):
+                api, pairs, new = proj_touched(o)
+                valid = True
+                if o[0] in ("pedge", "addlabel"):
+                    valid = 0 <= o[1] <= 7 and 0 <= o[2] <= 7 and _is_bm_edge(o[1], o[2])
+                elif o[0] == "fpedge":
+                    valid = 0 <= o[2] <= 3
+                elif o[0] == "pside":
+                    valid = o[1] in BM_SIDES
+                valid = valid and 1 <= len(new) <= 2
+                slots = [pair_slot[p] for p in pairs] if valid else []
+                over = [sl for sl in slots if len(set(pre[sl]) | set(new)) > 2]
+                if (over or not valid) and got == "accepted":
+                    what = f"step {k} {o} of {case['ops']} accepted"
+                    if over:
+                        a, b = SLOT_PAIR[over[0]]
+                        what += f": edge {a}-{b} carried {pre[over[0]]} and now carries {post[over[0]]}"
+                    out.append({"site": f"{api}:{'more-than-2-surfaces-on-an-edge' if over else 'invalid-argument'}:accepted", "what": what, "observed": got, "expected": "an exception"})
+                    break
+                if valid and not over and got != "accepted":
+                    out.append({"site": f"{api}:valid-call-rejected", "what": f"step {k} {o} of {case['ops']}: {got}; labels before {pre}", "observed": got, "expected": "accepted"})
+                    break
+                if got == "accepted":
+                    want = [sorted(set(pre[sl]) | set(new)) if sl in slots else pre[sl] for sl in range(12)]
+                    if post != want:
+                        out.append({"site": f"{api}:labels-not-the-union", "what": f"step {k} {o} of {case['ops']}: labels {post}, expected {want}", "observed": post, "expected": want})
+                        break
+                pre = post
+            return out
         # mesh: grade / backport need an assembled mesh
         assembled, depot = False, 0
         for k, (op, got) in enumerate(zip(case["ops"], impl["outs"])):
@@ -943,6 +1176,9 @@ class C20(core.Check):
             got = impl["out"]
             tag = got if got == "accepted" or got in LISTED else got + "(unlisted-class)"
             return f"{case['name']}:{tag}"
+        if case["kind"] == "proj":
+            most = max((len(sl) for _, st in impl["steps"] for sl in st), default=0)
+            return "proj:" + "+".join(sorted({o for o, _ in impl["steps"]})) + f":max-labels-{most}"
         return case["kind"] + ":" + "+".join(sorted(set(impl["outs"])))
 
     def static_checks(self) -> List[str]:
